@@ -304,7 +304,7 @@ def gen_key(rng, arr, allow_list, f1p):
                 sel.append([p, "subset", rng.randint(0, 3)])
             else:
                 sel.append([p, "list", list(range(6)) if rng.chance(0.4) else [rng.randint(0, 5) for _ in range(rng.randint(1, 3))]])
-    spec = {"form": form, "sel": sel, "list_form": rng.weighted([("list", 4), ("tuple", 2), ("nparray", 1)]), "np_items": rng.chance(0.15)}
+    spec = {"form": form, "sel": sel, "list_form": rng.weighted([("list", 4), ("tuple", 2), ("nparray", 1), ("iterator", 1)]), "np_items": rng.chance(0.15)}
     if rng.chance(f1p):
         spec["f1"] = rng.choice(["unknown_item", "slice_key", "not_subset"])
     return spec
@@ -357,7 +357,8 @@ def gen_op(rng, st, cfg):
         if how == "num":
             rhs = {"num": rng.randint(-3, 9)}
         elif how == "nd":
-            rhs = {"nd": {"vseed": rng.randint(0, 10 ** 6), "dtype": rng.weighted([("float64", 5), ("int64", 2), ("float32", 1)])}}
+            rhs = {"nd": {"vseed": rng.randint(0, 10 ** 6), "dtype": rng.weighted([("float64", 5), ("int64", 2), ("float32", 1)]),
+                          "frac": rng.chance(0.2)}}
             sf = gen_shape_fault(rng, fp * 2)
             if sf:
                 rhs["nd"]["shape_fault"] = sf
@@ -413,9 +414,14 @@ def gen_op(rng, st, cfg):
         return {"op": "split", "s": s, "dim": rng.randint(0, 4)}
     if kind == "stack":
         return {"op": "stack", "s": s, "dim": rng.randint(0, 4)}
+    if kind == "plot":
+        if rng.chance(0.3):
+            return {"op": "poke", "s": rng.randint(0, 15), "entry": rng.randint(0, 10 ** 6)}
+        return {"op": "plot", "s": rng.randint(0, 15), "chart": rng.choice(["line", "area", "scatter"]), "by_name": rng.chance(0.5),
+                "backend": rng.weighted([("pyplot", 4), ("plotly", 1)])}
     if kind == "stock_convert":
         return {"op": "stock_convert", "k": rng.randint(0, 3), "how": rng.choice(["to_stock_type", "stock_stack"]),
-                "cls": rng.choice(["simple", "inflow", "stockdriven"]), "dim": rng.randint(0, 5)}
+                "cls": rng.choice(["simple", "inflow", "stockdriven"]), "dim": rng.randint(0, 5), "same_class_bad_kw": rng.chance(0.2)}
     if kind == "system":
         return {"op": "system", "then": rng.choice(["build", "dict_numpy", "dict_pandas", "new_array", "check"])}
     if kind == "stock_compute" and rng.chance(0.15):
@@ -452,11 +458,11 @@ def gen_op(rng, st, cfg):
 
 def gen_cfg(rng, prop):
     base = {"mk": 5, "arith": 5, "reduce": 4, "slice": 5, "setitem": 6, "set_values": 3, "inplace_unary": 1, "df": 2,
-            "split": 1, "stack": 1, "stock": 2, "lifetime": 1, "stock_compute": 1, "system": 1, "stock_convert": 1}
+            "split": 1, "stack": 1, "stock": 2, "lifetime": 1, "stock_compute": 1, "system": 1, "stock_convert": 1, "plot": 0}
     if prop == "C05":
         base.update({"setitem": 16, "slice": 4, "stock": 0, "lifetime": 0, "stock_compute": 0, "system": 0, "stock_convert": 0, "df": 1, "set_values": 2})
     elif prop == "C15":
-        base.update({"slice": 9, "arith": 8, "reduce": 6, "mk": 7, "system": 3, "lifetime": 2})
+        base.update({"slice": 9, "arith": 8, "reduce": 6, "mk": 7, "system": 3, "lifetime": 2, "plot": 1.5})
     elif prop == "C13":
         base.update({"set_values": 6, "stock": 5, "lifetime": 3, "stock_compute": 4, "mk": 7})
     kinds = list(base)
@@ -468,7 +474,7 @@ def gen_cfg(rng, prop):
     arith = [("add", 3), ("sub", 3), ("mul", 3), ("min", 1), ("max", 1), ("neg", 1), ("abs", 1), ("absm", 1), ("sign", 1),
              ("radd", 1), ("rsub", 1), ("rmul", 1), ("div", nonint), ("pow", nonint), ("rdiv", nonint)]
     return {"mix": [(k, w) for k, w in base.items() if w > 0], "fault_p": rng.choice([0.0, 0.1, 0.3]), "arith": arith,
-            "ints": 0 if prop == "C05" else rng.choice([0, 0, 2]),
+            "ints": rng.choice([0, 0, 2]),
             "nonint": nonint, "n_ops": rng.randint(6, 40)}
 
 
